@@ -11,13 +11,19 @@ afterwards, compared inside Coq with M_Contexts.fill.
 Descriptor (JSON)
   mgr   {m: {"k": "syn", "hooked": b, "falsy": b, "eqp": b}
            | {"k": "gcm", "fn": c, "state": "new"|"ent"|"done"}}
-  fns   {c: {"yf": b, "reg": ures|null, "async": b (optional)}}   generator functions (code id c);
-                                              async = @asynccontextmanager (never with yf)
-  xfr   {i: {"reg": ures|null}}               extra plain frames 900+i (code id 900+i)
+  fns   {c: {"yf": b, "reg": ures|null, "async": b (optional), "res": r (optional), "ctx0": b (optional)}}
+        generator functions (code id c); async = @asynccontextmanager (never with yf); res = the body is
+        `with <manager r>: yield` (`async with` if async; r is an inert = unhooked synthetic manager, never with
+        yf); ctx0 = the registered hook returns frame.contexts[0].obj if the Frame has contexts, else reg
+  xfr   {i: {"reg": ures|null, "ctx0": b (optional)}}   extra plain frames 900+i (code id 900+i)
   elab  {m: [eff...]}   eff = ["sd",d] ["ad",d] ["sc",[k..]] ["ac",k] ["si",null|[f..]] ["so",m] ["raise"]
   unwrap {m: ures}      ures = ["none"] | ["prune"] | ["to", m] | ["raise"]
   ctx   {"obj": m, "exiting": b, "inner": null|[f..], "children": [k..], "descr": null|[d..], "hide": b}
   mode  ["outside"] | ["inside", wc, rc] | ["e2e", rc]
+        | ["e2e_during", rc] | ["e2e_exit", rc]: ctx.obj is a generator-based manager in state "new" with a `res`
+          body; a real `with mgr:` in a plain function enters it (the model sees it entered) and the stack is taken
+          from the body of that with (during) or from inside the resource's __exit__ reached through the
+          generator's exit (a context that really is exiting, generator running)
   frames: own frame of the generator of gcm manager m = m, its `yield from` callee = 500+m.
 """
 from __future__ import annotations
@@ -38,7 +44,10 @@ RULE = ("random hook tables over 2..7 managers (synthetic classes with/without r
         "backward: cycles), raise}, elaborate effects {set/append description, set/append children, set inner_stack, "
         "set obj, raise}, exiting and non-exiting contexts, fresh and pre-filled Context fields; each table is run "
         "outside extract, inside extract (all option pairs) and end-to-end through a real `with` in a generator frame; "
-        "dedicated tables for the generator-based lookup against a pre-set inner_stack; linear chains of 0..3 and 98..102 steps, self-, 2- and mixed cycles; thorough adds the exhaustive scope of 2 free "
+        "dedicated tables for the generator-based lookup against a pre-set inner_stack; generator-based wrappers whose "
+        "body is `with resource: yield` (sync/async) with hooks answering frame.contexts[0].obj, on exiting and non-exiting "
+        "contexts, outside/inside extract, and through a real `with` observed from its body and from inside the "
+        "resource's __exit__ while the generator runs its exit; linear chains of 0..3 and 98..102 steps, self-, 2- and mixed cycles; thorough adds the exhaustive scope of 2 free "
         "managers + sink. distinct = distinct descriptors; non-trivial = the model run replaces the manager, hides the "
         "context or raises")
 CONFIG = dict(
@@ -193,6 +202,14 @@ def _effs(rng, n, alive_frames, m=0):
     return out
 
 
+def eff_state(d, m):
+    """state the model sees: the root of the real-with modes is entered by the harness"""
+    a = d["mgr"][str(m)]
+    if d.get("mode", ["outside"])[0] in ("e2e_during", "e2e_exit") and int(m) == d["ctx"]["obj"]:
+        return "ent"
+    return a["state"]
+
+
 def alive_frames_of(d):
     fr = []
     for m, a in d["mgr"].items():
@@ -240,9 +257,14 @@ def gen_case(rng: random.Random, nmax=7):
         first = max(int(m) for m, a in d["mgr"].items() if a["k"] == "gcm" and a["fn"] == c)
         d["fns"][str(c)] = {"yf": rng.random() < 0.35,
                             "reg": ures(first, 0.12, 0.13, 0.06) if rng.random() < 0.8 else None}
+    inert = [int(m) for m, a in d["mgr"].items() if a["k"] == "syn" and not a["hooked"]]
     for spec in d["fns"].values():
         if not spec["yf"] and rng.random() < 0.3:
             spec["async"] = True
+        if not spec["yf"] and inert and rng.random() < 0.5:
+            spec["res"] = rng.choice(inert)
+        if spec["reg"] is not None and rng.random() < (0.6 if "res" in spec else 0.15):
+            spec["ctx0"] = True
     for i in range(rng.choice((0, 0, 1, 2))):
         d["xfr"][str(i)] = {"reg": _ures(rng, n, -1, 0.2, 0.2, 0.1) if rng.random() < 0.6 else None}
     alive = alive_frames_of(d)
@@ -296,6 +318,61 @@ def gen_path_case(rng: random.Random):
     return d
 
 
+def gen_with_case(rng: random.Random, mode=None, state=None, asy=None):
+    """generator-based wrapper whose body is `with resource: yield`; its registered hook answers
+    frame.contexts[0].obj (the pattern of stackscope's pytest-trio glue), with a table fallback"""
+    syn = {"k": "syn", "hooked": True, "falsy": False, "eqp": False}
+    inert = {"k": "syn", "hooked": False, "falsy": rng.random() < 0.1, "eqp": False}
+    if mode is None:
+        mode = rng.choice((["outside"], ["outside"], ["inside", True, False], ["inside", True, True],
+                           ["inside", False, rng.random() < 0.5], ["e2e_during", rng.random() < 0.5],
+                           ["e2e_exit", rng.random() < 0.5]))
+    real = mode[0] in ("e2e_during", "e2e_exit")
+    if state is None:
+        state = "new" if real else rng.choice(("new", "ent", "ent", "ent", "done"))
+    if asy is None:
+        asy = (not real) and rng.random() < 0.4
+    d = {"mgr": {"0": {"k": "gcm", "fn": 0, "state": state}, "1": inert, "2": syn,
+                 "3": {"k": "gcm", "fn": 1, "state": rng.choice(("ent", "ent", "new"))}, "4": dict(inert, falsy=False)},
+         "fns": {"0": {"yf": False, "res": 1, "ctx0": rng.random() < 0.85, "async": asy,
+                       "reg": rng.choice((["none"], ["none"], ["to", 2], ["to", 3], ["prune"], ["raise"]))},
+                 "1": {"yf": False, "res": 4, "ctx0": rng.random() < 0.7, "async": rng.random() < 0.4,
+                       "reg": rng.choice((["none"], ["to", 2], ["prune"]))}},
+         "xfr": {}, "elab": {"2": [["ad", 2], ["ac", 2]]},
+         "unwrap": {"2": rng.choice((["none"], ["none"], ["prune"], ["to", 3]))}}
+    if real or rng.random() < 0.7:
+        d["ctx"] = _default_ctx(0, mode[0] == "e2e_exit" or (not real and rng.random() < 0.5))
+    else:
+        # reached through a synthetic manager first
+        d["mgr"]["5"] = syn
+        d["elab"]["5"] = [["sc", [1]]]
+        d["unwrap"]["5"] = ["to", 0]
+        d["ctx"] = _default_ctx(5, rng.random() < 0.5)
+    d["mode"] = mode
+    return d
+
+
+def with_specials():
+    rng = random.Random(4711)
+    out = []
+    for mode in (["outside"], ["inside", True, False], ["inside", True, True], ["inside", False, False]):
+        for state in ("new", "ent", "done"):
+            for asy in (False, True):
+                for ex in (False, True):
+                    d = gen_with_case(rng, mode=list(mode), state=state, asy=asy)
+                    d["fns"]["0"].update(ctx0=True, reg=["none"])
+                    d["ctx"] = _default_ctx(0, ex)
+                    d["mgr"].pop("5", None), d["elab"].pop("5", None), d["unwrap"].pop("5", None)
+                    out.append(d)
+    for mode in (["e2e_during", False], ["e2e_during", True], ["e2e_exit", False], ["e2e_exit", True]):
+        for reg in (["none"], ["to", 2]):
+            for c0 in (True, False):
+                d = gen_with_case(rng, mode=list(mode))
+                d["fns"]["0"].update(ctx0=c0, reg=reg)
+                out.append(d)
+    return out
+
+
 E_ALPH = [[], [["sd", 1]], [["ac", 1]], [["si", []]], [["so", 2]], [["ad", 2], ["sc", [3]]], [["raise"]]]
 U_ALPH = [["none"], ["prune"], ["to", 0], ["to", 1], ["to", 2], ["raise"]]
 
@@ -335,11 +412,14 @@ def exhaustive(stride=1, offset=0):
 def make_inputs(tier, seed):
     rng = random.Random(seed * 7919 + 11)
     yield from specials()
+    yield from with_specials()
     n = 1800 if tier == "quick" else 20000
     for _ in range(n):
         yield gen_case(rng)
     for _ in range(n // 6):
         yield gen_path_case(rng)
+    for _ in range(n // 5):
+        yield gen_with_case(rng)
     if tier == "thorough":
         yield from exhaustive()
     else:
@@ -455,15 +535,47 @@ def run_case(d):
             return PRUNE
         return objs[r[1]]
 
+    # --- synthetic managers first (generator bodies may hold one of them open)
+    def _on_exit(self, *a):
+        cb = getattr(self, "on_exit", None)
+        if cb is not None:
+            cb()
+        return None
+
+    async def _aenter(self):
+        return self
+
+    async def _aexit(self, *a):
+        return None
+
+    for m, a in d["mgr"].items():
+        m = int(m)
+        if a["k"] != "gcm":
+            body = {"__enter__": (lambda self: self), "__exit__": _on_exit, "__aenter__": _aenter, "__aexit__": _aexit,
+                    "__repr__": (lambda self, m=m: f"<M{m}>")}
+            if a.get("falsy"):
+                body["__bool__"] = lambda self: False
+            if a.get("eqp"):
+                body["__eq__"] = lambda self, other: other is self or (isinstance(other, tuple) and len(other) == 0)
+                body["__hash__"] = object.__hash__
+            classes[m] = type(f"M{m}", (), body)
+            objs[m] = classes[m]()
     # --- generator functions and generator-based managers
     for c, spec in d["fns"].items():
         ns = {"__name__": "c11cases", "contextmanager": contextmanager, "asynccontextmanager": asynccontextmanager}
+        res = spec.get("res")
+        if res is not None:
+            ra = d["mgr"][str(res)]
+            assert ra["k"] == "syn" and not ra["hooked"] and not spec["yf"], "resource managers must be inert"
+            ns["RES"] = objs[res]
         if spec.get("async"):
-            src = f"@asynccontextmanager\nasync def cm_{c}(x):\n    yield\n"
+            body = "    async with RES:\n        yield\n" if res is not None else "    yield\n"
+            src = f"@asynccontextmanager\nasync def cm_{c}(x):\n{body}"
         elif spec["yf"]:
             src = f"def sub_{c}():\n    yield\n@contextmanager\ndef cm_{c}(x):\n    yield from sub_{c}()\n"
         else:
-            src = f"@contextmanager\ndef cm_{c}(x):\n    yield\n"
+            body = "    with RES:\n        yield\n" if res is not None else "    yield\n"
+            src = f"@contextmanager\ndef cm_{c}(x):\n{body}"
         exec(src, ns)
         fn_of[int(c)] = ns[f"cm_{c}"]
     for i in d["xfr"]:
@@ -494,16 +606,6 @@ def run_case(d):
                 sub = mg.gen.gi_yieldfrom
                 if sub is not None:
                     pyf[500 + m] = sub.gi_frame
-        else:
-            body = {"__enter__": (lambda self: self), "__exit__": (lambda self, *a: None),
-                    "__repr__": (lambda self, m=m: f"<M{m}>")}
-            if a.get("falsy"):
-                body["__bool__"] = lambda self: False
-            if a.get("eqp"):
-                body["__eq__"] = lambda self, other: other is self or (isinstance(other, tuple) and len(other) == 0)
-                body["__hash__"] = object.__hash__
-            classes[m] = type(f"M{m}", (), body)
-            objs[m] = classes[m]()
     oid = {id(o): m for m, o in objs.items()}
     fid = {id(f): k for k, f in pyf.items()}
     code_id = {id(fn.__wrapped__.__code__ if hasattr(fn, "__wrapped__") else fn.__code__): c for c, fn in fn_of.items()}
@@ -549,10 +651,13 @@ def run_case(d):
             unwrap_context.register(classes[m], u)
             reg_cls.append(classes[m])
 
-    def make_ghook(c, r):
+    def make_ghook(c, r, ctx0):
         def ghook(frame, context):
             log.append(["gen", code_id.get(id(frame.pyframe.f_code), 4999), fid.get(id(frame.pyframe), 4999),
-                        context.inner_stack is None, probe_options()])
+                        context.inner_stack is None, [oid.get(id(cx.obj), 4999) for cx in frame.contexts],
+                        probe_options()])
+            if ctx0 and frame.contexts:
+                return frame.contexts[0].obj
             if r[0] == "raise":
                 raise Boom("gen", c)
             return conv_ures(r)
@@ -560,7 +665,7 @@ def run_case(d):
 
     for c, spec in list(d["fns"].items()) + [(900 + int(i), s) for i, s in d["xfr"].items()]:
         if spec["reg"] is not None:
-            unwrap_context_generator.register(fn_of[int(c)], make_ghook(int(c), spec["reg"]))
+            unwrap_context_generator.register(fn_of[int(c)], make_ghook(int(c), spec["reg"], bool(spec.get("ctx0"))))
             reg_code.append(stackscope.lowlevel.get_code(fn_of[int(c)]))
 
     # --- the Context
@@ -617,7 +722,9 @@ def run_case(d):
 
     def ctx_of(c):
         return {"obj": oid.get(id(c.obj), 4999),
-                "inner": None if c.inner_stack is None else [fid.get(id(f.pyframe), 4999) for f in c.inner_stack.frames],
+                "inner": None if c.inner_stack is None else [
+                    [fid.get(id(f.pyframe), 4999), [oid.get(id(cx.obj), 4999) for cx in f.contexts]]
+                    for f in c.inner_stack.frames],
                 "children": [getattr(getattr(k, "root", None), "k", 4999) for k in c.children],
                 "hide": bool(c.hide), "descr": descr_of(c.description), "exiting": bool(c.is_exiting)}
 
@@ -655,6 +762,38 @@ def run_case(d):
             obs = {"ctx": ctx_of(ctx), "exc": exc_of(box.get("exc")), "before": box.get("before"),
                    "after": box.get("after"), "outer_error": None if st.error is None else repr(st.error)[:200],
                    "ran": "exc" in box, "unset_after": probe_options() is None}
+        elif mode[0] in ("e2e_during", "e2e_exit"):
+            # a real `with <generator-based manager>:` in a plain function; the stack is taken from the body of the
+            # with, or from inside the inert resource's __exit__ while the generator is running its exit
+            from stackscope import extract_since
+            root = cs["obj"]
+            ra = d["mgr"][str(root)]
+            spec = d["fns"][str(ra["fn"])]
+            assert ra["k"] == "gcm" and ra["state"] == "new" and spec.get("res") is not None and not spec.get("async")
+            resobj = objs[spec["res"]]
+            ns = {"sys": sys}
+            exec("def subject(mgr, during, at_exit):\n    fr = sys._getframe(0)\n    at_exit(fr)\n"
+                 "    with mgr:\n        during(fr)\n", ns)
+            box = {}
+
+            def snap(fr):
+                box["st"] = extract_since(fr, with_contexts=True, recurse_child_tasks=mode[1])
+
+            def arm(fr):
+                if mode[0] == "e2e_exit":
+                    resobj.on_exit = lambda: snap(fr)
+            try:
+                ns["subject"](objs[root], snap if mode[0] == "e2e_during" else (lambda fr: None), arm)
+            finally:
+                resobj.on_exit = None
+            st = box.get("st")
+            cxs = st.frames[0].contexts if st is not None and st.frames else []
+            err = None if st is None else st.error
+            if len(cxs) != 1 or hasattr(err, "exceptions"):
+                obs = {"ctx": None, "exc": ["other", "contexts=%d error=%r" % (len(cxs), err)], "before": None, "after": None}
+            else:
+                obs = {"ctx": ctx_of(cxs[0]), "exc": exc_of(err), "before": [True, mode[1]], "after": [True, mode[1]],
+                       "unset_after": probe_options() is None}
         else:  # end-to-end: a real `with` in a suspended generator frame, extract() calls fill_context itself
             ns = {}
             exec("def holder(mgr):\n    with mgr:\n        yield\n", ns)
@@ -724,20 +863,24 @@ def c_eff(e):
 
 def gframes_of(d, m):
     a = d["mgr"][str(m)]
-    if a["state"] == "done":
+    st = eff_state(d, m)
+    if st == "done":
         return []
     fr = [int(m)]
-    if a["state"] == "ent" and d["fns"][str(a["fn"])]["yf"]:
+    if st == "ent" and d["fns"][str(a["fn"])]["yf"]:
         fr.append(500 + int(m))
     return fr
 
 
 def c_cfg(d):
-    attrs, fcode = [], []
+    attrs, fcode, fctx = [], [], []
     for m, a in d["mgr"].items():
         if a["k"] == "gcm":
-            attrs.append(f"({m}, gcm_attr {a['fn']} {c_nats(gframes_of(d, m))} {cbool(a['state'] == 'new')})")
+            attrs.append(f"({m}, gcm_attr {a['fn']} {c_nats(gframes_of(d, m))} {cbool(eff_state(d, m) == 'new')})")
             fcode.append(f"({m}, {a['fn']})")
+            res = d["fns"][str(a["fn"])].get("res")
+            if res is not None and eff_state(d, m) == "ent":
+                fctx.append(f"({m}, [{res}])")
         else:
             attrs.append(f"({m}, syn_attr {cbool(a['hooked'])} {cbool(a.get('eqp', False))})")
     for i in d["xfr"]:
@@ -746,8 +889,10 @@ def c_cfg(d):
     unwrap = [f"({m}, {c_ures(r)})" for m, r in d["unwrap"].items()]
     greg = [f"({c}, {c_ures(s['reg'])})" for c, s in d["fns"].items() if s["reg"] is not None]
     greg += [f"({900 + int(i)}, {c_ures(s['reg'])})" for i, s in d["xfr"].items() if s["reg"] is not None]
-    return (f"(mkcfg {clist(attrs)} {clist(elab)} {clist(unwrap)} {clist(fcode)} {clist(greg)} "
-            f"SrcFacts.context_guard SrcFacts.push_restores_in_finally)")
+    g0 = [str(c) for c, s in d["fns"].items() if s["reg"] is not None and s.get("ctx0")]
+    g0 += [str(900 + int(i)) for i, s in d["xfr"].items() if s["reg"] is not None and s.get("ctx0")]
+    return (f"(mkcfg {clist(attrs)} {clist(elab)} {clist(unwrap)} {clist(fcode)} {clist(fctx)} {clist(greg)} "
+            f"{clist(g0)} SrcFacts.context_guard SrcFacts.push_restores_in_finally)")
 
 
 def c_atom(a):
@@ -760,7 +905,9 @@ def c_atom(a):
 
 def c_ctx(c):
     d = None if c["descr"] is None else clist(c_atom(a if isinstance(a, list) else ["t", a]) for a in c["descr"])
-    return (f"(mkctx {c['obj']} {copt(None if c['inner'] is None else c_nats(c['inner']))} {c_nats(c['children'])} "
+    def fobs(f):
+        return f"({f[0]}, {c_nats(f[1])})" if isinstance(f, list) else f"({f}, [])"
+    return (f"(mkctx {c['obj']} {copt(None if c['inner'] is None else clist(fobs(f) for f in c['inner']))} {c_nats(c['children'])} "
             f"{cbool(c['hide'])} {copt(d)} {cbool(c['exiting'])})")
 
 
@@ -773,7 +920,7 @@ def c_ev(e):
         return f"(VElab {e[1]} {c_opts(e[2])})"
     if e[0] == "unwrap":
         return f"(VUnwrap {e[1]} {c_opts(e[2])})"
-    return f"(VGen {e[1]} {e[2]} {cbool(e[3])} {c_opts(e[4])})"
+    return f"(VGen {e[1]} {e[2]} {cbool(e[3])} {c_nats(e[4])} {c_opts(e[5])})"
 
 
 BAD_CTX = {"obj": 4999, "inner": None, "children": [], "hide": False, "descr": None, "exiting": False}
@@ -794,7 +941,7 @@ def c_case(d, obs):
     else:
         out = f"(RaisedHook (WElab 4999) {c_ctx(BAD_CTX)})"
     mode = d["mode"]
-    entry = None if mode[0] == "outside" else ([mode[1], mode[2]] if mode[0] == "inside" else [True, mode[1]])
+    entry = _entry(mode)
     init = dict(d["ctx"])
     return (f"({c_cfg(d)}, {c_opts(entry)}, {c_ctx(init)}, "
             f"({out}, {clist(c_ev(e) for e in obs['log'])}, {c_opts(obs['after'])}))")
@@ -808,12 +955,23 @@ def _strip(obs):
     return {k: obs.get(k) for k in ("ctx", "exc", "log")}
 
 
+def _entry(mode):
+    return None if mode[0] == "outside" else ([mode[1], mode[2]] if mode[0] == "inside" else [True, mode[1]])
+
+
+def _verdict(obs):
+    c = obs.get("ctx") or {}
+    return {"exc": obs["exc"][:3] if obs["exc"][0] != "loop" else ["loop", obs["exc"][1], obs["exc"][3]],
+            "obj": c.get("obj"), "hide": c.get("hide"), "descr": c.get("descr"), "children": c.get("children"),
+            "gen_saw": [e[4] for e in obs["log"] if e[0] == "gen"], "calls": [e[:2] for e in obs["log"]]}
+
+
 def direct_oracle(d, obs):
     mode = d["mode"]
     ex = obs["exc"]
     if ex[0] == "other":
         return "fill_context failed in an unexpected way: " + str(ex[1])
-    entry = None if mode[0] == "outside" else ([mode[1], mode[2]] if mode[0] == "inside" else [True, mode[1]])
+    entry = _entry(mode)
     if obs.get("before") != entry:
         return f"harness: options on entry probed as {obs.get('before')}, expected {entry}"
     if obs.get("after") != entry:
@@ -831,6 +989,16 @@ def direct_oracle(d, obs):
             return f"chain with expect_loop={d['expect_loop']} ended with {ex[0]}"
         if ex[0] == "loop" and ex[2] != 100:
             return f"loop error message names {ex[2]} times"
+    if (mode[0] in ("outside", "inside") and (entry is None or entry[0]) and d["ctx"]["inner"] is None
+            and any(a["k"] == "gcm" for a in d["mgr"].values())):
+        # the verdict of the hooks of generator-based managers must not depend on the lookup path: the same
+        # tables on an exiting and on a non-exiting context (with_contexts in force) replace / hide / fail alike
+        # and the registered hooks are handed the same frame.contexts
+        twin = dict(d, ctx=dict(d["ctx"], exiting=not d["ctx"]["exiting"]))
+        obs2 = run_case(twin)
+        if _verdict(obs2) != _verdict(obs):
+            return ("generator-based lookup depends on the path: is_exiting=%s gives %r, is_exiting=%s gives %r"
+                    % (d["ctx"]["exiting"], _verdict(obs), twin["ctx"]["exiting"], _verdict(obs2)))[:1200]
     if mode[0] == "outside":
         # same result when called inside extract(with_contexts=True, recurse_child_tasks=False)
         twin = dict(d, mode=["inside", True, False])
@@ -842,6 +1010,8 @@ def direct_oracle(d, obs):
 
 def classify(d, obs):
     labs = ["mode:" + d["mode"][0], "exc:" + obs["exc"][0]]
+    if any(e[0] == "gen" and e[4] for e in obs["log"]):
+        labs.append("gen-hook-saw-contexts")
     steps = sum(1 for e in obs["log"] if e[0] in ("unwrap", "gen"))
     labs.append("hookcalls:" + ("0" if not obs["log"] else "1-4" if len(obs["log"]) <= 4 else "5-20" if len(obs["log"]) <= 20 else ">20"))
     labs.append("unwrapcalls:" + (str(steps) if steps < 4 else "4-99" if steps < 100 else ">=100"))
